@@ -197,3 +197,58 @@ class CFG(object):
         """every path src -> dst passes a node satisfying via_pred"""
         via = [n for n in self.nodes if n not in (ENTRY, EXIT, RAISE) and via_pred(n)]
         return not self.reaches(src_node, dst_node, avoiding=via)
+
+
+def def_nodes(cfg, var):
+    """CFG nodes that (re)bind local name `var`: {node: value expr or None}"""
+    out = {}
+    for n in cfg.nodes:
+        if n in (ENTRY, EXIT, RAISE):
+            continue
+        if isinstance(n, ast.Assign):
+            for t in n.targets:
+                for x in ast.walk(t):
+                    if isinstance(x, ast.Name) and x.id == var and isinstance(x.ctx, ast.Store):
+                        out[n] = n.value if (isinstance(t, ast.Name)) else None
+        elif isinstance(n, (ast.AugAssign, ast.AnnAssign)):
+            if isinstance(n.target, ast.Name) and n.target.id == var:
+                out[n] = None
+        elif isinstance(n, ast.ExceptHandler):
+            if n.name == var:
+                out[n] = None
+        elif isinstance(n, ast.expr):
+            # for-iterables and with-items: the binding happens "at" this node
+            from .pyfront import parent
+            p = parent(n)
+            if isinstance(p, (ast.For, ast.AsyncFor)) and p.iter is n:
+                if any(isinstance(x, ast.Name) and x.id == var for x in ast.walk(p.target)):
+                    out[n] = None
+            elif isinstance(p, ast.withitem) and p.optional_vars is not None:
+                if any(isinstance(x, ast.Name) and x.id == var for x in ast.walk(p.optional_vars)):
+                    out[n] = None
+    return out
+
+
+def reaching_defs(cfg, use, var, defs=None):
+    """definitions of `var` that may reach the ast node `use` (a Name load); ENTRY in the result means
+    'parameter / undefined on some path'"""
+    defs = defs if defs is not None else def_nodes(cfg, var)
+    start = cfg.node_of(use)
+    if start is None:
+        return set()
+    seen = set()
+    out = set()
+    stack = list(cfg.pred.get(start, ()))
+    while stack:
+        n = stack.pop()
+        if n in seen:
+            continue
+        seen.add(n)
+        if n in defs:
+            out.add(n)
+            continue
+        if n == ENTRY:
+            out.add(ENTRY)
+            continue
+        stack.extend(cfg.pred.get(n, ()))
+    return out
